@@ -554,7 +554,14 @@ impl World {
         let now = self.now;
         let before_len = self.outbuf.len();
         let state_before = self.eng.state();
-        let orphaned_current = { let s = self.eng.snapshot(now); s.current_operation.map(|c| !s.operations.iter().any(|o| o.id == c)).unwrap_or(false) };
+        // the half-written current operation has been completed by its ack timeout (and by nothing else)
+        let orphaned_current = {
+            let s = self.eng.snapshot(now);
+            match s.current_operation {
+                Some(c) if !s.operations.iter().any(|o| o.id == c) => self.ops.iter().any(|o| o.op_id == c && matches!(o.result, Some(Err(ErrKind::AckTimeout)))),
+                _ => false,
+            }
+        };
         let mut buffer = std::mem::take(&mut self.outbuf);
         let result = guarded(|| self.eng.service(now, &mut buffer));
         self.outbuf = buffer;
